@@ -19,8 +19,8 @@ def cfg(maxcells, emit, coltypes=('real', 'int', 'bool', 'date', 'string'), defe
                ''.join('INVARIANT %s\n' % i for i in INVARIANTS)))
 
 
-def model_rows(chk, maxcells, name='MC_ConstraintSem'):
-    res = tlc.run('MC_ConstraintSem', cfg_text=cfg(maxcells, True), name=name, timeout=1800)
+def model_rows(chk, maxcells, name='MC_ConstraintSem', coltypes=None):
+    res = tlc.run('MC_ConstraintSem', cfg_text=cfg(maxcells, True, **({'coltypes': coltypes} if coltypes else {})), name=name, timeout=1800)
     chk.add_tlc(res)
     if res.violated:
         chk.machinery_error('%s (Defects = {}) violates %s: the design model does not meet the specification'
